@@ -14,15 +14,23 @@ abbrev K := String
 abbrev V := Int
 def lower (k : K) : K := k.toLower
 
+/-- number of registers the harness uses (functions `Nat → α` are tabulated after every step:
+    a function-valued result would otherwise be re-evaluated on every lookup) -/
+def nRegs : Nat := 8
+
 structure St where
-  m : Nat → CIDict K V := fun _ => CIDict.empty
-  s : Nat → SMap K V := fun _ => []
+  ma : Array (CIDict K V) := Array.replicate nRegs CIDict.empty
+  sa : Array (SMap K V) := Array.replicate nRegs []
   probes : List K := []
   corrOk : Bool := true
   judgeOk : Bool := true
   notes  : List String := []
   lastRes : String := "ok"     -- model's result token for the last op
   lastSpecRes : String := "ok" -- spec's result token for the last op
+
+def St.m (st : St) : Nat → CIDict K V := fun i => st.ma.getD i CIDict.empty
+def St.s (st : St) : Nat → SMap K V := fun i => st.sa.getD i []
+def tabulate {α : Type} (f : Nat → α) : Array α := (Array.range nRegs).map f
 
 def parsePairs (s : String) : List (K × V) :=
   (commaList s).filterMap fun t =>
@@ -123,7 +131,7 @@ def stepOp (st : St) (toks : List String) : St :=
   | _ =>
     match parseOp toks with
     | some op =>
-        { st with m := stepM lower st.m op, s := stepS lower st.s op,
+        { st with ma := tabulate (stepM lower st.m op), sa := tabulate (stepS lower st.s op),
                   lastRes := if raisesM lower st.m op then "KeyError" else "ok",
                   lastSpecRes := if raisesS lower st.s op then "KeyError" else "ok" }
     | none => note { st with corrOk := false } s!"bad-op {" ".intercalate toks}"
